@@ -321,3 +321,193 @@ func TestC06_Rapid(t *testing.T) {
 		}
 	})
 }
+
+// ---------------------------------------------------------------------------------------
+// One manager object over a history of operations whose operands are objects the caller keeps and changes in place
+// between the calls (a running total, a loop variable), or the very element objects of an array operand. Every step
+// is decided by the same reference as the single operations, and every result handed out earlier keeps its value.
+
+type c06HStep struct {
+	Op   string `json:"op"`
+	SetX *val   `json:"setX,omitempty"` // before the step the caller assigns this value into its object X (in place)
+	SetY *val   `json:"setY,omitempty"`
+	A    int    `json:"a"` // operand sources: 0 = the object X, 1 = the object Y, 2 = a fresh variant (FA / FB), 3 = element Idx of X (X an array)
+	B    int    `json:"b"`
+	FA   val    `json:"fa"`
+	FB   val    `json:"fb"`
+	Idx  int    `json:"idx"`
+}
+
+type c06HistCase struct {
+	Safe  bool       `json:"safe"`
+	X     val        `json:"x"`
+	Y     val        `json:"y"`
+	Steps []c06HStep `json:"steps"`
+}
+
+func variantWithin(v, a *variants.Variant) bool {
+	if a == v {
+		return true
+	}
+	if a != nil && a.Type() == variants.Array {
+		for _, e := range a.AsArray() {
+			if variantWithin(v, e) {
+				return true
+			}
+		}
+	}
+	return false
+}
+
+func checkC06Hist(c c06HistCase) *evid.Fail {
+	ops := opsManager(c.Safe)
+	mgr := "type-unsafe"
+	if c.Safe {
+		mgr = "type-safe"
+	}
+	x, y := c.X.toVariant(), c.Y.toVariant()
+	xv, yv := c.X, c.Y
+	type kept struct {
+		v    *variants.Variant
+		was  val
+		step int
+	}
+	var held []kept
+	for i, s := range c.Steps {
+		if s.SetX != nil {
+			x.Assign(s.SetX.toVariant())
+			xv = *s.SetX
+		}
+		if s.SetY != nil {
+			y.Assign(s.SetY.toVariant())
+			yv = *s.SetY
+		}
+		pick := func(src int, fresh val) (*variants.Variant, val) {
+			switch src {
+			case 0:
+				return x, xv
+			case 1:
+				return y, yv
+			case 3:
+				if xv.K == "array" && len(xv.A) > 0 {
+					k := s.Idx % len(xv.A)
+					return x.AsArray()[k], xv.A[k]
+				}
+			}
+			return fresh.toVariant(), fresh
+		}
+		a, av := pick(s.A, s.FA)
+		b, bv := pick(s.B, s.FB)
+		if isUnary(s.Op) {
+			b, bv = variants.EmptyVariant(), vNull()
+		}
+		desc := fmt.Sprintf("step %d of %d on one %s manager (operands kept and reassigned in place by the caller): %s(%s, %s)", i, len(c.Steps), mgr, s.Op, av, bv)
+		cell := fmt.Sprintf("%s(%s,%s)", s.Op, av.K, bv.K)
+		v, err, bad := runOp(ops, s.Op, a, b)
+		if bad != nil {
+			bad.Msg = desc + ": " + bad.Msg
+			return bad
+		}
+		if !equalVal(fromVariant(a), av) || !equalVal(fromVariant(b), bv) {
+			return evid.F("operand-mutated:"+s.Op, "%s changed its operands to (%s, %s)", desc, fromVariant(a), fromVariant(b))
+		}
+		want := refOperator(s.Op, av, bv, c.Safe)
+		switch want.St {
+		case refMustError:
+			if err == nil {
+				return evid.F("history:value-for-undefined-operation:"+cell, "%s = %s, but the operation is undefined (%s)", desc, fromVariant(v), want.Why)
+			}
+		case refExact:
+			if err != nil {
+				return evid.F("history:error-for-defined-operation:"+cell, "%s failed with %v, expected %s", desc, err, want.V)
+			}
+			if want.Why != "pow" {
+				got := fromVariant(v)
+				ok := equalVal(got, want.V)
+				for _, alt := range want.Alt {
+					ok = ok || equalVal(got, alt)
+				}
+				if !ok {
+					return evid.F("history:wrong-value:"+cell, "%s = %s, expected %s", desc, got, want.V)
+				}
+			}
+		}
+		for _, k := range held {
+			if now := fromVariant(k.v); !equalVal(now, k.was) {
+				return evid.F("earlier-result-changed:"+s.Op, "%s: the result of step %d was %s and now is %s", desc, k.step, k.was, now)
+			}
+		}
+		// results that are an operand or an element of one (indexing hands out the element itself) follow their owner
+		if err == nil && v != nil && !variantWithin(v, x) && !variantWithin(v, y) && !variantWithin(v, a) && !variantWithin(v, b) {
+			held = append(held, kept{v, fromVariant(v), i})
+		}
+	}
+	return nil
+}
+
+func init() { regReplay("C06.hist", checkC06Hist) }
+
+func TestC06_RapidHistories(t *testing.T) {
+	rec := evid.New("C06", "TestC06_RapidHistories", "C06.hist", "histories of 2..10 operations on ONE manager object whose operands are two objects the caller keeps and reassigns in place between the calls, element objects of an array operand, or fresh values; each step against the operator reference, results handed out earlier keep their value; non-trivial = an operand object that was reassigned in place (same type, other value) is used again, or an operand is the element object of the other; distinct by case")
+	defer finish(t, rec)
+	sameKind := func(rt *rapid.T, v val) val {
+		// another value of the same type: what a loop variable or a running total goes through
+		switch v.K {
+		case "int":
+			return vInt(int(v.I) + rapid.IntRange(1, 9).Draw(rt, "d"))
+		case "long":
+			return vLong(v.I + int64(rapid.IntRange(1, 9).Draw(rt, "d")))
+		case "float":
+			return vFloat(v.f32() + float32(rapid.IntRange(1, 9).Draw(rt, "d")))
+		case "double":
+			return vDouble(v.f64() + float64(rapid.IntRange(1, 9).Draw(rt, "d"))/2)
+		case "string":
+			return vString(v.S + rapid.SampledFrom([]string{"1", "x", "é"}).Draw(rt, "d"))
+		case "bool":
+			return vBool(v.I == 0)
+		case "timespan":
+			return vSpan(time64(v.I + 1000000*int64(rapid.IntRange(1, 9).Draw(rt, "d"))))
+		}
+		return genValue(rt, 1)
+	}
+	runRapid(t, pick(20000, 150000), 666, func(rt *rapid.T) {
+		c := c06HistCase{Safe: rapid.IntRange(0, 3).Draw(rt, "safe") == 0, X: genValue(rt, 1), Y: genValue(rt, 1)}
+		if rapid.IntRange(0, 3).Draw(rt, "nanarray") == 0 {
+			c.X = vArray(vDouble(math.NaN()), vInt(1), vFloat(float32(math.NaN())), vString("a"))
+		}
+		xv, yv := c.X, c.Y
+		n := rapid.IntRange(2, 10).Draw(rt, "n")
+		nt := false
+		for i := 0; i < n; i++ {
+			s := c06HStep{Op: rapid.SampledFrom(refOperators).Draw(rt, "op"), A: rapid.SampledFrom([]int{0, 0, 1, 1, 2, 3}).Draw(rt, "a"), B: rapid.SampledFrom([]int{0, 1, 1, 2, 3}).Draw(rt, "b"),
+				Idx: rapid.IntRange(0, 5).Draw(rt, "idx")}
+			s.FA, s.FB = genValue(rt, 1), genValue(rt, 1)
+			switch rapid.IntRange(0, 5).Draw(rt, "set") {
+			case 0, 1:
+				v := sameKind(rt, yv)
+				s.SetY, yv, nt = &v, v, nt || s.A == 1 || s.B == 1
+			case 2:
+				v := sameKind(rt, xv)
+				s.SetX, xv, nt = &v, v, nt || s.A == 0 || s.B == 0
+			case 3:
+				v := genValue(rt, 1)
+				s.SetY, yv = &v, v
+			}
+			if s.A == 3 || s.B == 3 {
+				if xv.K == "array" && len(xv.A) > 0 {
+					nt = true
+					if rapid.Bool().Draw(rt, "membership") {
+						s.Op, s.A, s.B = "In", 0, 3
+					}
+				}
+			}
+			c.Steps = append(c.Steps, s)
+		}
+		rec.Case(jsonStr(c), nt, func() interface{} { return c }, fmt.Sprintf("safe:%v", c.Safe))
+		if f := checkC06Hist(c); f != nil {
+			if rec.Fail(f, c) {
+				rt.Fatalf("%v", f)
+			}
+		}
+	})
+}
